@@ -285,7 +285,8 @@ class CSSVariablesDeclaration(cssutils.util._NewBase):
         wellformed, seq, store, unused = ProdParser().parse(
             normalize(variableName), 'variableName', Sequence(PreDef.ident())
         )
-        if not wellformed:
+        if not wellformed or len(seq) != 1 or not isinstance(seq[0].value, str):
+            # (a name whose resolved escapes read as a comment is no name)
             self._log.error(f'Invalid variableName: {variableName!r}: {value!r}')
         else:
             # check value
